@@ -77,8 +77,10 @@ class Scheduler:
 
     def __init__(self, chooser, watched_files=(), watched_mods=(),
                  observe=None, line_points=False, use_cache=True,
-                 only_funcs=None, every_switch_costs=False) -> None:
+                 only_funcs=None, every_switch_costs=False,
+                 workers_first=False) -> None:
         self.chooser = chooser
+        self.workers_first = workers_first
         self.every_switch_costs = every_switch_costs
         self.only_funcs = only_funcs
         self.watched_files = set(watched_files)
@@ -187,11 +189,21 @@ class Scheduler:
     def _reschedule(self, me: TState) -> None:
         threads = self.threads
         enabled = []
-        if me.status != "done" and me.enabled():
-            enabled.append(me)
-        for t in threads:
-            if t is not me and t.status != "done" and t.enabled():
+        if self.workers_first:
+            # base schedule "eager workers": the consumer (thread 0) only
+            # runs when no other thread can
+            for t in threads[1:]:
+                if t.status != "done" and t.enabled():
+                    enabled.append(t)
+            t = threads[0]
+            if t.status != "done" and t.enabled():
                 enabled.append(t)
+        else:
+            if me.status != "done" and me.enabled():
+                enabled.append(me)
+            for t in threads:
+                if t is not me and t.status != "done" and t.enabled():
+                    enabled.append(t)
         if not enabled:
             stuck = [t for t in threads if t.status != "done"]
             self.deadlock = bool(stuck)
